@@ -275,6 +275,15 @@ func main() {
 		return
 	}
 	runner.Main(runner.Check{
+		RacePass: func(n int, scratch string) (int, []string) {
+			total, ps := 0, []string(nil)
+			for _, sc := range scenarios("quick") {
+				d, p := vexp.RacePass(scenario(sc), n)
+				total += d
+				ps = append(ps, p...)
+			}
+			return total, ps
+		},
 		ID:          "C13",
 		Level:       "model_checking",
 		Rule:        "2-4 driver threads (prioritized Do/Done pairs, concurrent InvokeBackgroundTask callers) on the real BackgroundTaskManager under the cooperative scheduler; bodies are harness code that notice cancellation 0-2 steps late (environment deviations); silence period and context timeout on the virtual clock; all schedules within the preemption bound; non-trivial = distinct linearised event logs",
